@@ -472,6 +472,26 @@ class UserSecurityModel(
             raise UnknownUser(f"Unknown user {security_name!r}")
 
         verify_authentication(message, credentials, security_params)
+        if credentials.auth is not None and not (
+            message.header.flags.auth
+            and message.header.flags.priv == (credentials.priv is not None)
+        ):
+            # A message with a lower security-level than the one of the
+            # user proves nothing about its origin. The only messages an
+            # engine sends that way are reports (f.ex. "unknown engine-id" or
+            # "wrong digest", see RFC 3414 section 3.2). Anything else must
+            # not be acted upon.
+            if message.header.flags.priv or not isinstance(
+                message.scoped_pdu.data, Report
+            ):
+                raise AuthenticationError(
+                    "The security-level of the incoming message is lower "
+                    "than the security-level of the user!"
+                )
+            validate_usm_message(message)
+            raise AuthenticationError(
+                "Received an unauthenticated report from the remote device!"
+            )
         message = decrypt_message(message, credentials)
         validate_usm_message(message)
         return message
